@@ -148,6 +148,9 @@ class Gen:
         # extra leaves (e.g. variables) offered to the descent: list of expressions
         self.extra = []
         self.extra_prob = 0.4
+        # probability of leaving a leaf unrestricted although a restriction is required
+        # (interior facets: exercises default restrictions and missing-restriction errors)
+        self.unrestricted_prob = 0.0
 
     def extra_leaf(self, shape, rmode):
         """One of the extra leaves with the requested shape (or a component of one), else None."""
@@ -175,6 +178,9 @@ class Gen:
     def R(self, e, rmode):
         """Restrict e if the current mode requires a restriction here."""
         if rmode == "need":
+            if self.unrestricted_prob and self.rng.random() < self.unrestricted_prob:
+                self.note("restrict:left-unrestricted")
+                return e
             return e(self.side())
         return e
 
@@ -253,9 +259,7 @@ class Gen:
         cls = rng.choice(opts)
         self.note("leaf:" + cls.__name__)
         q = cls(U.mesh)
-        if rmode == "need":
-            return q(self.side())
-        return q
+        return self.R(q, rmode)
 
     def tensor_leaf(self, shape, rmode, dd):
         U = self.U
@@ -277,7 +281,7 @@ class Gen:
         if shape == (U.gdim,) and U.is_facet and r < 0.9 and self.geom and not self.poly:
             self.note("leaf:FacetNormal")
             n = FacetNormal(U.mesh)
-            return n(self.side()) if rmode == "need" else n
+            return self.R(n, rmode)
         if len(shape) == 2 and shape[0] == shape[1] and r < 0.8:
             self.note("leaf:Identity")
             return Identity(shape[0])
@@ -450,9 +454,7 @@ class Gen:
         return "inside" if rmode == "need" else rmode
 
     def R_after(self, e, rmode):
-        if rmode == "need":
-            return e(self.side())
-        return e
+        return self.R(e, rmode)
 
     def some_shape(self):
         rng = self.rng
